@@ -163,6 +163,11 @@ def items(tier):
                     sp = F.with_teams(fl, lay)
                     for rev in (True, False):
                         out.append((sp, {"rule": "TSLACK", "due": False, "rev": rev, "absence": [], "max_time": F.seq_bound(sp) + 12}))
+    for links in ([[1, 2, "FS"], [0, 2, "FS"]], [[0, 2, "FS"], [0, 1, "FS"]], [[1, 2, "FF"], [0, 2, "FS"], [0, 1, "SS"]]):
+        fl = {"tasks": [{"name": F.tname(i), "work": float(w), "due": d} for i, (w, d) in enumerate(((2, 3), (1, 5), (1, 6)))], "links": links}
+        sp = F.with_teams(fl, "POOL2")
+        for dflag, rev in itertools.product((False, True), repeat=2):
+            out.append((sp, {"rule": "TSLACK", "due": dflag, "rev": rev, "absence": [], "max_time": F.seq_bound(sp) + 12}))
     for sp in F.same_name_task_specs():
         for rev in (True, False):
             out.append((sp, {"rule": "TSLACK", "due": False, "rev": rev, "absence": [], "max_time": 20}))
